@@ -505,4 +505,322 @@ theorem daemonSet_not_wlErr_panic (c : Cluster) (ns : String) (ref : Ref) :
         · split at h <;> (subst h; simp)
   exact key _ rfl
 
+/-! ### ReplicaSets and canary Deployments -/
+
+theorem activeOwned_invalid (c : Cluster) (d : Deployment) (h : d.selector = .invalid) : activeOwned c d = [] := by
+  unfold activeOwned
+  rw [List.filter_eq_nil_iff]
+  intro rs _
+  simp [h, Sel.mts]
+
+theorem rss_ok (c : Cluster) (d : Deployment) (n : Nat) (rss : List ReplicaSet)
+    (h : getReplicaSetsForDeployment c d n = .ok rss) : rss = activeOwned c d := by
+  unfold getReplicaSetsForDeployment at h
+  split at h
+  · rename_i hs
+    cases h
+    exact (activeOwned_invalid c d hs).symm
+  · split at h
+    · split at h
+      · cases h
+      · cases h; rfl
+    · cases h; rfl
+
+theorem createdBefore_key : createdBefore = fun a b => decide ((fun rs : ReplicaSet => rs.m.created) a < (fun rs : ReplicaSet => rs.m.created) b) := rfl
+
+theorem createdAfter_key : createdAfter = fun a b => decide ((fun d : Deployment => -d.m.created) a < (fun d : Deployment => -d.m.created) b) := by
+  funext a b
+  simp only [createdAfter]
+  rw [decide_eq_decide]
+  omega
+
+theorem stableRs_ok (c : Cluster) (d : Deployment) (n : Nat) (r : Option ReplicaSet)
+    (h : getDeploymentStableRs c d n = .ok r) : r = oldestRs c d := by
+  unfold getDeploymentStableRs at h
+  cases hr : getReplicaSetsForDeployment c d n with
+  | error e => rw [hr] at h; cases h
+  | ok rss =>
+    rw [hr] at h
+    have := rss_ok c d n rss hr
+    subst this
+    simp only at h
+    unfold oldestRs
+    split at h
+    · rename_i hl
+      cases h
+      have : activeOwned c d = [] := List.eq_nil_of_length_eq_zero hl
+      rw [this]; rfl
+    · cases h
+      rw [← List.head?_eq_getElem?, head?_sortBy]
+
+theorem canary_ok (c : Cluster) (d : Deployment) (r : Option Deployment)
+    (h : getLatestCanaryDeployment c d = .ok r) : r = newestLiveCanary c d := by
+  unfold getLatestCanaryDeployment at h
+  split at h
+  · cases h
+  · simp only at h
+    unfold newestLiveCanary
+    split at h
+    · rename_i hl
+      cases h
+      have : canariesOf c d = [] := List.eq_nil_of_length_eq_zero hl
+      rw [this]; rfl
+    · cases h
+      rw [createdAfter_key, find?_sortBy]
+
+/-- the stable ReplicaSet is an oldest one among those that count -/
+theorem oldestRs_spec (c : Cluster) (d : Deployment) (rs : ReplicaSet) (h : oldestRs c d = some rs) :
+    rs ∈ activeOwned c d ∧ ∀ o ∈ activeOwned c d, rs.m.created ≤ o.m.created := by
+  unfold oldestRs at h
+  rw [createdBefore_key] at h
+  exact minBy_key _ _ _ h
+
+theorem newestLiveCanary_spec (c : Cluster) (d cd : Deployment) (h : newestLiveCanary c d = some cd) :
+    cd ∈ canariesOf c d ∧ cd.m.deleting = false ∧ ∀ o ∈ canariesOf c d, o.m.deleting = false → o.m.created ≤ cd.m.created := by
+  unfold newestLiveCanary at h
+  rw [createdAfter_key] at h
+  have ⟨hm, hle⟩ := minBy_key _ _ _ h
+  rw [List.mem_filter] at hm
+  refine ⟨hm.1, by simpa using hm.2, ?_⟩
+  intro o ho hd
+  have := hle o (List.mem_filter.2 ⟨ho, by simp [hd]⟩)
+  omega
+
+/-! ### canary-style Deployment -/
+
+theorem deployment_wl (c : Cluster) (ns : String) (ref : Ref) (w : W) (h : getDeployment c ns ref = .wl w) :
+    ∃ d, lookup Deployment.m c.deployments ns ref.name = some d ∧ agrees w (canaryDeploymentFacts c d) = true := by
+  unfold getDeployment at h
+  split at h
+  · cases h
+  · cases hg : c.getDeployment ns ref.name with
+    | notFound => rw [hg] at h; cases h
+    | err => rw [hg] at h; cases h
+    | found d =>
+      rw [hg] at h
+      refine ⟨d, get_found _ _ _ _ _ _ _ hg, ?_⟩
+      simp only at h
+      split at h
+      · cases h
+        unfold canaryDeploymentFacts
+        cases oldestRs c d <;> simp_all [agrees, W.opaque]
+      · cases hs : getDeploymentStableRs c d 0 with
+        | error e => rw [hs] at h; cases h
+        | ok r =>
+          rw [hs] at h
+          have hr := stableRs_ok c d 0 r hs
+          subst hr
+          cases ho : oldestRs c d with
+          | none =>
+            rw [ho] at h; cases h
+            simp [agrees, canaryDeploymentFacts, ho, W.opaque]
+          | some rs =>
+            rw [ho] at h
+            simp only at h
+            cases hrep : d.replicas with
+            | none => rw [hrep] at h; cases h
+            | some rep =>
+              rw [hrep] at h
+              simp only at h
+              split at h
+              · cases h; simp_all [agrees, canaryDeploymentFacts, W.opaque]
+              · split at h
+                · cases h; simp_all [agrees, canaryDeploymentFacts, W.opaque]
+                · cases hc : getLatestCanaryDeployment c d with
+                  | error e => rw [hc] at h; cases h
+                  | ok cd =>
+                    rw [hc] at h
+                    have hcd := canary_ok c d cd hc
+                    subst hcd
+                    cases hn : newestLiveCanary c d with
+                    | none => rw [hn] at h; cases h; simp_all [agrees, canaryDeploymentFacts, W.opaque]
+                    | some cd =>
+                      rw [hn] at h
+                      simp only at h
+                      cases hs2 : getDeploymentStableRs c cd 1 with
+                      | error e => rw [hs2] at h; cases h
+                      | ok r2 =>
+                        rw [hs2] at h
+                        have hr2 := stableRs_ok c cd 1 r2 hs2
+                        subst hr2
+                        cases ho2 : oldestRs c cd with
+                        | none => rw [ho2] at h; cases h; simp_all [agrees, canaryDeploymentFacts, W.opaque]
+                        | some crs => rw [ho2] at h; cases h; simp_all [agrees, canaryDeploymentFacts, W.opaque]
+
+/-- every other outcome of the canary-style finder -/
+theorem deployment_out (c : Cluster) (ns : String) (ref : Ref) (o : Out) (h : getDeployment c ns ref = o) :
+    (o = .nothing → owns c.filter (groupOf ref) ref.kind .deployment = true → lookup Deployment.m c.deployments ns ref.name = none) ∧
+    (∀ w, o = .wlErr w → w.isInRollback = false ∧ (w.isStatusConsistent = true ∨ w = W.opaque)) ∧
+    (o = .panic → ∃ d, lookup Deployment.m c.deployments ns ref.name = some d ∧ d.replicas = none) := by
+  unfold getDeployment at h
+  rw [vgk_ok] at h
+  split at h
+  · rename_i hv
+    subst h
+    refine ⟨fun _ ho => ?_, by simp, by simp⟩
+    simp only [owns] at ho
+    simp [ho] at hv
+  · cases hg : c.getDeployment ns ref.name with
+    | notFound => rw [hg] at h; subst h; simp [get_notFound _ _ _ _ _ _ hg]
+    | err => rw [hg] at h; subst h; simp
+    | found d =>
+      rw [hg] at h
+      have hl := get_found _ _ _ _ _ _ _ hg
+      simp only at h
+      split at h
+      · subst h; simp
+      · cases hs : getDeploymentStableRs c d 0 with
+        | error e => rw [hs] at h; subst h; simp [W.opaque]
+        | ok r =>
+          rw [hs] at h
+          cases r with
+          | none => subst h; simp
+          | some rs =>
+            simp only at h
+            cases hrep : d.replicas with
+            | none => rw [hrep] at h; subst h; simp [hl, hrep]
+            | some rep =>
+              rw [hrep] at h
+              simp only at h
+              split at h
+              · subst h; simp
+              · split at h
+                · subst h; simp
+                · cases hc : getLatestCanaryDeployment c d with
+                  | error e => rw [hc] at h; subst h; simp
+                  | ok cd =>
+                    rw [hc] at h
+                    cases cd with
+                    | none => subst h; simp
+                    | some cd =>
+                      simp only at h
+                      cases hs2 : getDeploymentStableRs c cd 1 with
+                      | error e => rw [hs2] at h; subst h; simp
+                      | ok r2 =>
+                        rw [hs2] at h
+                        cases r2 <;> (subst h; simp)
+
+theorem deployment_not_owns (c : Cluster) (ns : String) (ref : Ref)
+    (ho : owns c.filter (groupOf ref) ref.kind .deployment = false) : getDeployment c ns ref = .nothing := by
+  unfold getDeployment
+  rw [vgk_ok]
+  simp only [owns] at ho
+  simp [ho]
+
+theorem deployment_absent (c : Cluster) (ns : String) (ref : Ref) (hf : c.failGet = [])
+    (hp : present c ns ref .deployment = false) : getDeployment c ns ref = .nothing := by
+  unfold getDeployment
+  split
+  · rfl
+  · have : lookup Deployment.m c.deployments ns ref.name = none := by
+      simp only [present] at hp
+      cases hl : lookup Deployment.m c.deployments ns ref.name <;> simp_all
+    unfold Cluster.getDeployment
+    rw [get_noFault _ _ _ _ _ _ hf this]
+
+/-! ### partition-style (advanced) Deployment -/
+
+theorem findLoop_new (d : Deployment) (l : List ReplicaSet) (n o n' o' : Option ReplicaSet)
+    (h : findLoop d l (n, o) = some (n', o')) :
+    n' = match (l.filter fun rs => rs.template == d.template).getLast? with
+         | some x => some x
+         | none => n := by
+  induction l generalizing n o with
+  | nil => simp [findLoop] at h; simp [h.1]
+  | cons rs rest ih =>
+    unfold findLoop at h
+    split at h
+    · rename_i ht
+      have := ih _ _ h
+      rw [this]
+      simp only [List.filter_cons, ht, beq_self_eq_true, if_true, List.getLast?_cons]
+      cases (List.filter (fun rs => rs.template == d.template) rest).getLast? <;> simp
+    · rename_i ht
+      have hf : (List.filter (fun rs => rs.template == d.template) (rs :: rest)) = List.filter (fun rs => rs.template == d.template) rest := by
+        simp [List.filter_cons, ht]
+      rw [hf]
+      split at h
+      · cases hr : rs.replicas with
+        | none => rw [hr] at h; cases h
+        | some r =>
+          rw [hr] at h
+          simp only at h
+          split at h <;> exact ih _ _ h
+      · exact ih _ _ h
+
+theorem findLoop_no_panic (d : Deployment) (l : List ReplicaSet) (acc : Option ReplicaSet × Option ReplicaSet)
+    (hl : ∀ rs ∈ l, rs.replicas.isSome = true) : findLoop d l acc ≠ none := by
+  induction l generalizing acc with
+  | nil => simp [findLoop]
+  | cons rs rest ih =>
+    obtain ⟨n, o⟩ := acc
+    have hrest : ∀ x ∈ rest, x.replicas.isSome = true := fun x hx => hl x (by simp [hx])
+    unfold findLoop
+    split
+    · exact ih _ hrest
+    · split
+      · cases hr : rs.replicas with
+        | none => have := hl rs (by simp); simp [hr] at this
+        | some r =>
+          simp only
+          split <;> exact ih _ hrest
+      · exact ih _ hrest
+
+theorem findCS_new (c : Cluster) (d : Deployment) (n o : Option ReplicaSet)
+    (h : findCanaryAndStableReplicaSet (activeOwned c d) d = some (n, o)) : n = newRsOf c d := by
+  unfold findCanaryAndStableReplicaSet at h
+  have := findLoop_new d _ none none n o h
+  rw [this]
+  unfold newRsOf
+  cases (List.filter (fun rs => rs.template == d.template) (sortBy revLess (activeOwned c d))).getLast? <;> rfl
+
+theorem activeOwned_sub (c : Cluster) (d : Deployment) (rs : ReplicaSet) (h : rs ∈ activeOwned c d) : rs ∈ c.replicaSets :=
+  (List.mem_filter.1 h).1
+
+theorem advanced_wl (c : Cluster) (ns : String) (ref : Ref) (w : W) (h : getAdvancedDeployment c ns ref = .wl w) :
+    ∃ d, lookup Deployment.m c.deployments ns ref.name = some d ∧ agrees w (advancedDeploymentFacts c d) = true := by
+  unfold getAdvancedDeployment at h
+  split at h
+  · cases h
+  · cases hg : c.getDeployment ns ref.name with
+    | notFound => rw [hg] at h; cases h
+    | err => rw [hg] at h; cases h
+    | found d =>
+      rw [hg] at h
+      refine ⟨d, get_found _ _ _ _ _ _ _ hg, ?_⟩
+      simp only at h
+      split at h
+      · cases h; simp_all [agrees, advancedDeploymentFacts, W.opaque]
+      · cases hrep : d.replicas with
+        | none => rw [hrep] at h; cases h
+        | some rep =>
+          rw [hrep] at h
+          simp only at h
+          split at h
+          · cases h; simp_all [agrees, advancedDeploymentFacts, W.opaque]
+          · cases hr : getReplicaSetsForDeployment c d 0 with
+            | error e => rw [hr] at h; cases h
+            | ok rss =>
+              rw [hr] at h
+              have := rss_ok c d 0 rss hr
+              subst this
+              simp only at h
+              cases hf : findCanaryAndStableReplicaSet (activeOwned c d) d with
+              | none => rw [hf] at h; cases h
+              | some no =>
+                obtain ⟨n, o⟩ := no
+                rw [hf] at h
+                have hn := findCS_new c d n o hf
+                subst hn
+                simp only at h
+                cases hnr : newRsOf c d with
+                | none =>
+                  rw [hnr] at h
+                  simp only at h
+                  split at h <;> (cases h; simp_all [agrees, advancedDeploymentFacts, W.opaque]) <;> grind
+                | some rs =>
+                  rw [hnr] at h
+                  simp only at h
+                  split at h <;> (cases h; simp_all [agrees, advancedDeploymentFacts, W.opaque]) <;> grind
+
 end RV.Lemmas.Finder
